@@ -128,6 +128,16 @@ func init() {
 			in.hangCheck = true
 			return TupleV{}
 		},
+		// vhLoopBoundIn(fn, n): loops inside the function named fn (chain walks)
+		// may iterate at most n times; more is a hang finding
+		"vhLoopBoundIn": func(in *Interp, fn *ssa.Function, a []Value) Value {
+			if in.loopBoundIn == nil {
+				in.loopBoundIn = map[string]int{}
+			}
+			in.loopBoundIn[in.concreteStr(a[0], "function name")] = in.concreteInt(a[1], "loop bound")
+			in.hangCheck = true
+			return TupleV{}
+		},
 		"vhUnwind": func(in *Interp, fn *ssa.Function, a []Value) Value {
 			in.loopBound = in.concreteInt(a[0], "unwind")
 			return TupleV{}
